@@ -1,6 +1,6 @@
 #!/usr/bin/env python3
 """Regenerate /verif/MANIFEST.json from scripts/props.py (claimed checks) and the fixed not-applicable list."""
-import json, sys
+import json, os, sys
 sys.path.insert(0, os.path.dirname(os.path.abspath(__file__)))
 from props import PROPS, NOT_APPLICABLE, LEVEL_TEXT
 props = [json.loads(l) for l in open("/verif/properties.jsonl")]
